@@ -484,13 +484,18 @@ class P:
                 k, v, ln = self.peek()
             self.eat()
             name = v
+            if name == "operator" and self.val() in ("(", "[") and self.val(1) in (")", "]"):
+                name += self.eat()[1] + self.eat()[1]
             targs = None
             while True:
                 if self.at("::"):
                     self.eat()
                     if self.at("template"):
                         self.eat()
-                    name += "::" + self.eat()[1]
+                    nxt = self.eat()[1]
+                    if nxt == "operator" and self.val() in ("(", "[") and self.val(1) in (")", "]"):
+                        nxt += self.eat()[1] + self.eat()[1]
+                    name += "::" + nxt
                 elif self.at("<") and name.split("::")[-1] in TEMPLATE_IDS:
                     targs = self.template_args()
                 else:
@@ -856,8 +861,13 @@ class Interp:
         if name in ("operator[]",) and len(a) == 1:
             t = f"(View.index {vr} {paren(self.as_int(a[0]))})"
             return ("view", t + ".base", ("var", t + ".lay"))
-        if name == "operator()":
-            t = f"(View.paren {vr} [" + ", ".join(self.as_arg(x) for x in a) + "])"
+        if name in ("operator()", "paren_aux_"):
+            if not a:
+                return v
+            if a[-1][0] == "alist":
+                t = f"(View.paren {vr} (" + "".join(self.as_arg(x) + " :: " for x in a[:-1]) + f"{a[-1][1]}))"
+            else:
+                t = f"(View.paren {vr} [" + ", ".join(self.as_arg(x) for x in a) + "])"
             return ("view", t + ".base", ("var", t + ".lay"))
         if name in VIEW_METHODS:
             t = f"({VIEW_METHODS[name]} {vr} " + " ".join(paren(self.as_int(x)) for x in a) + ")" if a else f"({VIEW_METHODS[name]} {vr})"
@@ -894,7 +904,7 @@ class Interp:
             return ("braces", [self.eval(x) for x in e[1]])
         if k == "pack":
             v = self.eval(e[1])
-            if v[0] != "ilist":
+            if v[0] not in ("ilist", "alist"):
                 raise TranslateError(f"{self.fname}: pack expansion of a non-pack")
             return v
         if k == "id":
@@ -1093,7 +1103,7 @@ class Interp:
                 self.write_lv(la, vb)
                 self.write_lv(lb, va)
                 return ("void",)
-            if base in ("static_cast", "std::move", "std::forward") and len(args) == 1:
+            if (base == "static_cast" or name in ("std::move", "std::forward")) and len(args) == 1:
                 return self.eval(args[0])
             if base in VIEW_CTORS:
                 return self.mk_view(args)
@@ -1250,7 +1260,9 @@ def param_names(params):
         if not m:
             raise TranslateError(f"parameter {p!r}")
         ty, pack, name = m.group(1), m.group(2), m.group(3)
-        if pack:
+        if pack and re.search(r"\bAs\b", ty):
+            kind = "alist"
+        elif pack:
             kind = "ilist"
         elif re.search(r"index_range|iextension|index_extension|intersecting_range|range\s*(const)?\s*&?$|extension_t", ty):
             kind = "ext"
@@ -1279,6 +1291,7 @@ REGIONS = {
     "viewD": ("array_ref.hpp", r"struct\s+const_subarray\s*:\s*array_types<T,\s*D,\s*ElementPtr,\s*Layout>"),
     "view1": ("array_ref.hpp", r"struct\s+const_subarray<T,\s*1,\s*ElementPtr,\s*Layout>"),
     "iterD": ("array_ref.hpp", r"struct\s+array_iterator\s+:"),
+    "subD": ("array_ref.hpp", r"class\s+subarray\s*:\s*public\s+const_subarray<T,\s*D,\s*ElementPtr,\s*Layout>"),
 }
 
 # (lean name, region, C++ name, selector, receiver kind)
@@ -1333,7 +1346,54 @@ TARGETS = [
     ("V_unrotated_aux", "viewD", "unrotated_aux_", dict(nparams=0), "view"),
     ("V_begin_aux", "viewD", "begin_aux_", dict(nparams=0), "view"),
     ("V_end_aux", "viewD", "end_aux_", dict(nparams=0), "view"),
+    # public wrappers of the D > 1 class (every overload must translate to the same text)
+    ("W_sliced", "viewD", "sliced", dict(nparams=2, all=True), "view"),
+    ("W_taked", "viewD", "taked", dict(nparams=1, all=True), "view"),
+    ("W_dropped", "viewD", "dropped", dict(nparams=1, all=True), "view"),
+    ("W_strided", "viewD", "strided", dict(nparams=1, all=True), "view"),
+    ("W_rotated", "viewD", "rotated", dict(nparams=0, all=True), "view"),
+    ("W_unrotated", "viewD", "unrotated", dict(nparams=0, all=True), "view"),
+    ("W_transposed", "viewD", "transposed", dict(nparams=0, all=True), "view"),
+    ("W_reversed", "viewD", "reversed", dict(nparams=0, all=True), "view"),
+    ("W_partitioned", "viewD", "partitioned", dict(nparams=1, all=True), "view"),
+    ("W_chunked", "viewD", "chunked", dict(nparams=1, all=True), "view"),
+    ("W_halved", "viewD", "halved", dict(nparams=0, all=True), "view"),
+    ("W_diagonal", "viewD", "diagonal", dict(nparams=0, all=True), "view"),
+    ("W_paren0", "viewD", "paren_aux_", dict(nparams=0, all=True), "view"),
+    ("W_paren_rng", "viewD", "paren_aux_", dict(nparams=2, params=r"^index_range rng, As\.\.\. args$", all=True), "view"),
+    ("W_paren_clip", "viewD", "paren_aux_", dict(nparams=2, params=r"^intersecting_range<index> inr, As\.\.\. args$", all=True), "view"),
+    # the mutable class `subarray` (its overrides must agree with the const class)
+    ("S_sliced", "subD", "sliced", dict(nparams=2, all=True), "view"),
+    ("S_range", "subD", "range", dict(nparams=1, all=True), "view"),
+    ("S_taked", "subD", "taked", dict(nparams=1, all=True), "view"),
+    ("S_dropped", "subD", "dropped", dict(nparams=1, all=True), "view"),
+    ("S_strided", "subD", "strided", dict(nparams=1, all=True), "view"),
+    ("S_rotated", "subD", "rotated", dict(nparams=0, all=True), "view"),
+    ("S_unrotated", "subD", "unrotated", dict(nparams=0, all=True), "view"),
+    ("S_transposed", "subD", "transposed", dict(nparams=0, all=True), "view"),
+    ("S_reversed", "subD", "reversed", dict(nparams=0, all=True), "view"),
+    ("S_partitioned", "subD", "partitioned", dict(nparams=1, all=True), "view"),
+    ("S_chunked", "subD", "chunked", dict(nparams=1, all=True), "view"),
+    ("S_diagonal", "subD", "diagonal", dict(nparams=0, all=True), "view"),
+    ("S_flatted", "subD", "flatted", dict(nparams=0, quals=r"^&$"), "view"),
+    ("S_bracket", "subD", "operator[]", dict(nparams=1, params=r"^index idx$", all=True), "view"),
+    ("S_paren0", "subD", "paren_aux_", dict(nparams=0, all=True), "view"),
+    ("S_paren_idx1", "subD", "paren_aux_", dict(nparams=1, params=r"^index idx$", all=True), "view"),
+    ("S_paren_idx", "subD", "paren_aux_", dict(nparams=2, params=r"^index idx, As\.\.\. args$", all=True), "view"),
+    ("S_paren_rng", "subD", "paren_aux_", dict(nparams=2, params=r"^index_range irng, As\.\.\. args$", all=True), "view"),
+    ("S_paren_clip", "subD", "paren_aux_", dict(nparams=2, params=r"^intersecting_range<index> inr, As\.\.\. args$", all=True), "view"),
     # D == 1 views
+    ("W1_sliced", "view1", "sliced", dict(nparams=2, all=True), "view"),
+    ("W1_taked", "view1", "taked", dict(nparams=1, all=True), "view"),
+    ("W1_dropped", "view1", "dropped", dict(nparams=1, all=True), "view"),
+    ("W1_strided", "view1", "strided", dict(nparams=1, all=True), "view"),
+    ("W1_partitioned", "view1", "partitioned", dict(nparams=1, all=True), "view"),
+    ("W1_chunked", "view1", "chunked", dict(nparams=1, all=True), "view"),
+    ("W1_halved", "view1", "halved", dict(nparams=0, all=True), "view"),
+    ("W1_paren0", "view1", "paren_aux_", dict(nparams=0, all=True), "view"),
+    ("W1_paren_idx", "view1", "paren_aux_", dict(nparams=1, params=r"^index idx$", all=True), "view"),
+    ("W1_paren_rng", "view1", "paren_aux_", dict(nparams=1, params=r"^index_range const& rng$", all=True), "view"),
+    ("W1_paren_clip", "view1", "paren_aux_", dict(nparams=1, params=r"^intersecting_range<index> const& rng$", all=True), "view"),
     ("V1_at_aux", "view1", "at_aux_", dict(nparams=1), "view"),
     ("V1_reindexed1", "view1", "reindexed", dict(nparams=1, quals=r"^&$"), "view"),
     ("V1_taked_aux", "view1", "taked_aux_", dict(nparams=1), "view"),
@@ -1398,6 +1458,9 @@ def translate_one(lean_name, region, cpp, sel, kind):
             elif k == "ilist":
                 params[n] = ("ilist", ln)
                 binders.append(f"({ln} : List Int)")
+            elif k == "alist":
+                params[n] = ("alist", ln)
+                binders.append(f"({ln} : List Arg)")
             else:
                 raise TranslateError(f"{cpp}: parameter {n} of unsupported type")
         it = Interp(kind, recv, params, f"{rel}:{fn['line']}:{cpp}")
